@@ -102,7 +102,7 @@ func C03(c *core.Ctx) {
 			c.Und("R2/getSNPs/"+mode, fn.Pos(), "cannot bind worker parameters by role")
 			continue
 		}
-		if _, err := ev.CallFunc(fn, w.args...); err != nil {
+		if _, err := ev.CallFuncBound(fn, w.args...); err != nil {
 			c.Und("R2/getSNPs/"+mode, fn.Pos(), "cannot evaluate worker: %v", err)
 			continue
 		}
@@ -208,7 +208,7 @@ func C03(c *core.Ctx) {
 		dom := tabs.domain(false)
 		ev.Domain = func(s eval.AbsSeq) []eval.Value { return codeValues(dom) }
 		w := bindWorker(c, fn, eval.Sym("L").Add(eval.K(1)), nil)
-		_, err := ev.CallFunc(fn, w.args...)
+		_, err := ev.CallFuncBound(fn, w.args...)
 		if err != nil {
 			c.Und("R2/getSNPs/width-check", fn.Pos(), "cannot evaluate: %v", err)
 		} else {
